@@ -38,6 +38,11 @@ type hdrCtx struct {
 	errOk   map[types.Object]string // err variables of `v, err := k.GetX(L)`: the name of their "is nil" boolean
 	nilable map[string]bool         // variables holding a key.Ops that may be the typed nil (option (list Z))
 	opsRet  bool                    // the function returns a key.Ops: option (list Z)
+	// lookup mode (T15): Verifiers / Signers / KeySet .Lookup; sign mode: SignMessage.Verify
+	lookupMode bool
+	elemIsKey  bool   // KeySet: the elements are keys themselves
+	signMode   bool
+	sigVar     string // the range variable over the signatures
 }
 
 var claimsFields = map[string]string{"Expiration": "c_exp", "NotBefore": "c_nbf", "IssuedAt": "c_iat", "Issuer": "c_iss", "Audience": "c_aud"}
@@ -220,6 +225,9 @@ func (f *ftr) hdrExpr(e ast.Expr) (term, bool) {
 	if f.hdr.keyMode {
 		return f.keyExpr(e)
 	}
+	if f.hdr.lookupMode || f.hdr.signMode {
+		return f.signExpr(e)
+	}
 	if v, ok := f.hdrVar(e); ok {
 		return term{v, true}, true
 	}
@@ -312,6 +320,9 @@ func (f *ftr) hdrStmt(s ast.Stmt, next ast.Stmt) ([]irStmt, int, bool) {
 	if f.hdr.keyMode {
 		ir, ok := f.keyStmt(s)
 		return ir, 0, ok
+	}
+	if f.hdr.lookupMode || f.hdr.signMode {
+		return f.signStmt(s, next)
 	}
 	switch x := s.(type) {
 	case *ast.AssignStmt:
@@ -1062,6 +1073,304 @@ func genKeyFuncs(ps []pkgInfo) string {
 		}
 		pos := pi.p.Fset.Position(fd.Pos())
 		fmt.Fprintf(&b, "(* Key.%s — %s:%d *)\nDefinition %s (k : cosemap) (k_nil : bool) : res %s :=\n  %s.\n\n", m, strings.TrimPrefix(pos.Filename, *repo+"/"), pos.Line, name, rt, term)
+	}
+	return b.String()
+}
+
+// ---- T15: lookup by key id (Verifiers / Signers / KeySet .Lookup) and the per-signature loop of SignMessage.Verify
+
+// chain matches a.b().c() ... as the list of selector names on a root identifier
+func chain(e ast.Expr) (root *ast.Ident, names []string, ok bool) {
+	switch x := e.(type) {
+	case *ast.Ident:
+		return x, nil, true
+	case *ast.SelectorExpr:
+		r, n, ok := chain(x.X)
+		return r, append(n, x.Sel.Name), ok
+	case *ast.CallExpr:
+		if len(x.Args) != 0 {
+			return nil, nil, false
+		}
+		r, n, ok := chain(x.Fun)
+		if !ok || len(n) == 0 {
+			return nil, nil, false
+		}
+		n[len(n)-1] += "()"
+		return r, n, ok
+	}
+	return nil, nil, false
+}
+
+func (f *ftr) signExpr(e ast.Expr) (term, bool) {
+	h := f.hdr
+	if r, names, ok := chain(e); ok && r != nil {
+		path := strings.Join(names, ".")
+		rn := f.nameOf(r)
+		switch {
+		case h.lookupMode && !h.elemIsKey && path == "Key().Kid()":
+			return term{"(kid (sg_key " + rn + "))", true}, true
+		case h.lookupMode && h.elemIsKey && path == "Kid()":
+			return term{"(kid " + rn + ")", true}, true
+		case h.signMode && r.Name == h.recv && path == "mm.Signatures":
+			return term{"(olist sigs)", true}, true
+		case h.signMode && rn == h.sigVar && path == "Kid()":
+			return term{"(get_bytes_ (omap (se_unprot " + rn + ")) 4)", true}, true
+		case h.signMode && rn == h.sigVar && path == "protected":
+			return term{"(Some (se_raw " + rn + "))", true}, true
+		case h.signMode && rn == h.sigVar && path == "toSign":
+			return term{"sig_toSign", true}, true
+		case h.signMode && rn == h.sigVar && path == "Signature":
+			return term{"(match se_sig " + rn + " with Some b => b | None => [] end)", true}, true
+		case h.signMode && path == "Key().Alg()":
+			return term{"(key_alg (sg_key " + rn + "))", true}, true
+		}
+	}
+	switch x := e.(type) {
+	case *ast.BinaryExpr:
+		if (x.Op == token.EQL || x.Op == token.NEQ) && isNilIdent(x.Y) && h.signMode {
+			var t string
+			if r, names, ok := chain(x.X); ok && r != nil {
+				switch {
+				case r.Name == h.recv && strings.Join(names, ".") == "mm":
+					t = "false" // the message was decoded (hypothesis of the theorem): the wire struct exists
+				case r.Name == h.recv && strings.Join(names, ".") == "mm.Signatures":
+					t = "(is_none sigs)"
+				case len(names) == 0 && isByteSlice(f.typeOf(x.X)):
+					t = "(is_none " + f.nameOf(r) + ")" // a nil-able byte string held as option bytes (protected)
+				}
+			}
+			if t != "" {
+				if x.Op == token.NEQ {
+					t = "(negb " + t + ")"
+				}
+				return term{t, true}, true
+			}
+		}
+	case *ast.CallExpr:
+		if tv, ok := f.pi.p.TypesInfo.Types[x.Fun]; ok && tv.IsType() && len(x.Args) == 1 {
+			if b, ok := tv.Type.Underlying().(*types.Basic); ok && b.Info()&types.IsInteger != 0 {
+				return f.expr(x.Args[0]), true
+			}
+		}
+		if sel, ok := x.Fun.(*ast.SelectorExpr); ok {
+			if obj, ok := f.pi.p.TypesInfo.ObjectOf(sel.Sel).(*types.Func); ok && obj.Pkg() != nil && obj.Pkg().Path() == "bytes" && obj.Name() == "Equal" && len(x.Args) == 2 {
+				pa, a := f.bind(f.expr(x.Args[0]))
+				pb, b := f.bind(f.expr(x.Args[1]))
+				if pa == "" && pb == "" {
+					return term{"(bytes_eqb " + a + " " + b + ")", true}, true
+				}
+			}
+			if r, names, ok := chain(sel.X); ok && r != nil && h.signMode && f.nameOf(r) == h.sigVar && strings.Join(names, ".") == "Protected" && sel.Sel.Name == "Has" && len(x.Args) == 1 {
+				if l, ok := f.label(x.Args[0]); ok {
+					return term{"(has (se_prot " + h.sigVar + ") " + l + ")", true}, true
+				}
+			}
+			// verifier.Verify(sig.toSign, sig.Signature) as a boolean "no error"
+			if id, ok := sel.X.(*ast.Ident); ok && h.signMode && sel.Sel.Name == "Verify" && len(x.Args) == 2 {
+				pa, a := f.bind(f.expr(x.Args[0]))
+				pb, b := f.bind(f.expr(x.Args[1]))
+				if pa == "" && pb == "" {
+					return term{"(sg_verify " + f.nameOf(id) + " " + a + " " + b + ")", true}, true
+				}
+			}
+		}
+	}
+	return term{}, false
+}
+
+func (f *ftr) signStmt(s ast.Stmt, next ast.Stmt) ([]irStmt, int, bool) {
+	h := f.hdr
+	switch x := s.(type) {
+	case *ast.DeclStmt:
+		// var err error
+		if gd, ok := x.Decl.(*ast.GenDecl); ok && gd.Tok == token.VAR && len(gd.Specs) == 1 {
+			if vs, ok := gd.Specs[0].(*ast.ValueSpec); ok && len(vs.Names) == 1 && vs.Names[0].Name == "err" && len(vs.Values) == 0 {
+				return nil, 0, true
+			}
+		}
+	case *ast.ReturnStmt:
+		if len(x.Results) == 1 {
+			if isErrCtor(f, x.Results[0]) {
+				return []irStmt{irReturn{term{"Err", false}}}, 0, true
+			}
+			if isNilIdent(x.Results[0]) {
+				if h.lookupMode {
+					return []irStmt{irReturn{term{"None", true}}}, 0, true
+				}
+				return []irStmt{irReturn{term{"tt", true}}}, 0, true
+			}
+			if id, ok := x.Results[0].(*ast.Ident); ok && h.lookupMode {
+				return []irStmt{irReturn{term{"(Some " + f.nameOf(id) + ")", true}}}, 0, true
+			}
+		}
+	case *ast.AssignStmt:
+		if !h.signMode || len(x.Rhs) != 1 {
+			return nil, 0, false
+		}
+		// verifier := verifiers.Lookup(kid); if verifier == nil { return ERR }
+		if len(x.Lhs) == 1 && x.Tok == token.DEFINE {
+			if call, ok := x.Rhs[0].(*ast.CallExpr); ok && len(call.Args) == 1 {
+				if sel, ok := call.Fun.(*ast.SelectorExpr); ok && sel.Sel.Name == "Lookup" {
+					if vsid, ok := sel.X.(*ast.Ident); ok {
+						v := x.Lhs[0].(*ast.Ident)
+						ni, ok := next.(*ast.IfStmt)
+						if !ok || types.ExprString(ni.Cond) != v.Name+" == nil" || len(ni.Body.List) != 1 || ni.Else != nil {
+							f.fail(x, "the result of Lookup is not tested for nil right away")
+							return nil, 0, true
+						}
+						r, ok := ni.Body.List[0].(*ast.ReturnStmt)
+						if !ok || len(r.Results) != 1 || !isErrCtor(f, r.Results[0]) {
+							f.fail(x, "a missing verifier does not return an error")
+							return nil, 0, true
+						}
+						p, a := f.bind(f.expr(call.Args[0]))
+						if p != "" {
+							return nil, 0, false
+						}
+						f.declare(v, v.Name)
+						return []irStmt{irMatch{scrut: "(lookup_prim " + f.nameOf(vsid) + " " + a + ")", arms: []irArm{{pat: "Some " + f.nameOf(v), bind: []string{f.nameOf(v)}}}, def: []irStmt{irReturn{term{"Err", false}}}}}, 1, true
+					}
+				}
+			}
+		}
+		// alg, _ := sig.Protected.GetInt(L) ; protected, _ = sig.Protected.Bytes()
+		if len(x.Lhs) == 2 {
+			v, vok := x.Lhs[0].(*ast.Ident)
+			e, eok := x.Lhs[1].(*ast.Ident)
+			call, cok := x.Rhs[0].(*ast.CallExpr)
+			if vok && eok && cok && e.Name == "_" {
+				if sel, ok := call.Fun.(*ast.SelectorExpr); ok {
+					if r, names, ok := chain(sel.X); ok && r != nil && f.nameOf(r) == h.sigVar && strings.Join(names, ".") == "Protected" {
+						var rhs string
+						switch {
+						case sel.Sel.Name == "GetInt" && len(call.Args) == 1:
+							if l, ok := f.label(call.Args[0]); ok {
+								rhs = "(get_int_ (se_prot " + h.sigVar + ") " + l + ")"
+							}
+						case sel.Sel.Name == "Bytes" && len(call.Args) == 0:
+							rhs = "(headers_bytes (se_prot " + h.sigVar + "))"
+						}
+						if rhs != "" {
+							if x.Tok == token.DEFINE {
+								f.declare(v, v.Name)
+							}
+							return []irStmt{irBind{f.nameOf(v), term{rhs, true}}}, 0, true
+						}
+					}
+				}
+			}
+		}
+		// sig.toSign = m.mm.toSign(protected, externalData)
+		if len(x.Lhs) == 1 && x.Tok == token.ASSIGN {
+			if r, names, ok := chain(x.Lhs[0]); ok && r != nil && f.nameOf(r) == h.sigVar && strings.Join(names, ".") == "toSign" {
+				if call, ok := x.Rhs[0].(*ast.CallExpr); ok && len(call.Args) == 2 {
+					if rr, nn, ok := chain(call.Fun); ok && rr != nil && rr.Name == h.recv && strings.Join(nn, ".") == "mm.toSign" {
+						pa, a := f.bind(f.expr(call.Args[0]))
+						pb, b := f.bind(f.expr(call.Args[1]))
+						if pa == "" && pb == "" {
+							return []irStmt{irBind{"sig_toSign", term{"(structure KSign (w_prot w) " + a + " " + b + " (w_payload w))", false}}}, 0, true
+						}
+					}
+				}
+			}
+		}
+	case *ast.IfStmt:
+		// if err = verifier.Verify(..); err != nil { return err }
+		if a, ok := x.Init.(*ast.AssignStmt); ok && h.signMode && len(a.Lhs) == 1 && len(a.Rhs) == 1 && a.Tok == token.ASSIGN && types.ExprString(a.Lhs[0]) == "err" &&
+			types.ExprString(x.Cond) == "err != nil" && x.Else == nil && len(x.Body.List) == 1 {
+			if r, ok := x.Body.List[0].(*ast.ReturnStmt); ok && len(r.Results) == 1 && isErrCtor(f, r.Results[0]) {
+				t := f.expr(a.Rhs[0])
+				if t.pure {
+					return []irStmt{irIf{cond: term{"(negb " + t.s + ")", true}, then: []irStmt{irReturn{term{"Err", false}}}}}, 0, true
+				}
+			}
+		}
+	case *ast.RangeStmt:
+		if h.signMode {
+			if id, ok := x.Value.(*ast.Ident); ok {
+				h.sigVar = coqName(id.Name)
+			}
+		}
+	}
+	return nil, 0, false
+}
+
+func genLookups(ps []pkgInfo) string {
+	var b strings.Builder
+	b.WriteString("(* GENERATED by /verif/tools/gen (T15: lookup by key id; the per-signature loop of SignMessage.Verify) from the ldclabs/cose working tree. Do not edit. *)\n")
+	b.WriteString("From Coq Require Import List ZArith Bool.\nFrom Coq Require Import Strings.Byte.\nFrom Cose Require Import Lib.Base Lib.Cbor Lib.GoSem Model.GoVal Model.Wire Model.Key Model.MsgLogic Model.Msg Model.HdrSem.\nImport ListNotations.\nOpen Scope Z_scope.\n\n")
+	find := func(short, fn string) (*pkgInfo, *ast.FuncDecl) {
+		for i := range ps {
+			if ps[i].short != short {
+				continue
+			}
+			for _, file := range ps[i].p.Syntax {
+				for _, d := range file.Decls {
+					if x, ok := d.(*ast.FuncDecl); ok && x.Body != nil && funcName(x) == fn {
+						return &ps[i], x
+					}
+				}
+			}
+		}
+		return nil, nil
+	}
+	for _, t := range []struct {
+		fn, elem string
+		isKey    bool
+	}{{"Verifiers_Lookup", "sigprim", false}, {"Signers_Lookup", "sigprim", false}, {"KeySet_Lookup", "cosemap", true}} {
+		name := "key_" + t.fn
+		stub := func(why string) {
+			fmt.Fprintln(os.Stderr, "gen: T15:", name, "not translated:", why)
+			fmt.Fprintf(&b, "(* %s — NOT TRANSLATED: %s *)\nDefinition %s : unit := tt.\n\n", name, strings.ReplaceAll(why, "*)", "* )"), name)
+		}
+		pi, fd := find("key", t.fn)
+		if fd == nil || fd.Recv == nil || len(fd.Recv.List) != 1 || len(fd.Recv.List[0].Names) != 1 || len(fd.Type.Params.List) != 1 || len(fd.Type.Params.List[0].Names) != 1 {
+			stub("method not found or of another signature")
+			continue
+		}
+		f := &ftr{pi: *pi, all: ps, fd: fd, declared: map[string]int{}, byteVars: map[string]string{}, names: map[types.Object]string{},
+			hdr: &hdrCtx{recv: fd.Recv.List[0].Names[0].Name, lookupMode: true, elemIsKey: t.isKey}}
+		f.declare(fd.Recv.List[0].Names[0], fd.Recv.List[0].Names[0].Name)
+		f.declare(fd.Type.Params.List[0].Names[0], fd.Type.Params.List[0].Names[0].Name)
+		rn, pn := f.nameOf(fd.Recv.List[0].Names[0]), f.nameOf(fd.Type.Params.List[0].Names[0])
+		ir := f.lower(fd.Body.List)
+		term := f.emit(ir, kont{kind: 0}, map[string]bool{rn: true, pn: true})
+		if f.err != nil {
+			stub(f.err.Error())
+			continue
+		}
+		pos := pi.p.Fset.Position(fd.Pos())
+		fmt.Fprintf(&b, "(* %s — %s:%d *)\nDefinition %s (%s : list %s) (%s : bytes) : res (option %s) :=\n  %s.\n\n", t.fn, strings.TrimPrefix(pos.Filename, *repo+"/"), pos.Line, name, rn, t.elem, pn, t.elem, term)
+	}
+	// SignMessage.Verify
+	{
+		name := "cose_SignMessage_Verify"
+		stub := func(why string) {
+			fmt.Fprintln(os.Stderr, "gen: T15:", name, "not translated:", why)
+			fmt.Fprintf(&b, "(* %s — NOT TRANSLATED: %s *)\nDefinition %s : unit := tt.\n\n", name, strings.ReplaceAll(why, "*)", "* )"), name)
+		}
+		pi, fd := find("cose", "SignMessage_Verify")
+		if fd == nil || fd.Recv == nil || len(fd.Recv.List) != 1 || len(fd.Recv.List[0].Names) != 1 || len(fd.Type.Params.List) != 2 ||
+			len(fd.Type.Params.List[0].Names) != 1 || len(fd.Type.Params.List[1].Names) != 1 {
+			stub("method not found or of another signature")
+		} else {
+			f := &ftr{pi: *pi, all: ps, fd: fd, declared: map[string]int{}, byteVars: map[string]string{}, names: map[types.Object]string{},
+				hdr: &hdrCtx{recv: fd.Recv.List[0].Names[0].Name, signMode: true}}
+			for _, r := range []string{"w", "sigs", "sig_toSign"} {
+				f.declared[r] = 1
+			}
+			f.declare(fd.Type.Params.List[0].Names[0], fd.Type.Params.List[0].Names[0].Name)
+			f.declare(fd.Type.Params.List[1].Names[0], fd.Type.Params.List[1].Names[0].Name)
+			vn, en := f.nameOf(fd.Type.Params.List[0].Names[0]), f.nameOf(fd.Type.Params.List[1].Names[0])
+			ir := f.lower(fd.Body.List)
+			term := f.emit(ir, kont{kind: 0}, map[string]bool{vn: true, en: true})
+			if f.err != nil {
+				stub(f.err.Error())
+			} else {
+				pos := pi.p.Fset.Position(fd.Pos())
+				fmt.Fprintf(&b, "(* SignMessage.Verify on a decoded message (wire struct w, signatures sigs) — %s:%d *)\nDefinition %s (%s : list sigprim) (%s : option bytes) (w : wire) (sigs : option (list sigent)) : res unit :=\n  %s.\n\n", strings.TrimPrefix(pos.Filename, *repo+"/"), pos.Line, name, vn, en, term)
+			}
+		}
 	}
 	return b.String()
 }
